@@ -132,6 +132,27 @@ pub fn canon_type(s: &str) -> String {
     canon(&s.replace('\n', " "))
 }
 
+/// Diagnostic messages quote rendered types in backticks: canonicalise each quoted segment the
+/// same way (the listing order of members in rendered types may vary, nothing else).
+fn canon_backticks(msg: &str) -> String {
+    let parts: Vec<&str> = msg.split('`').collect();
+    if parts.len() < 3 {
+        return msg.to_string();
+    }
+    let mut out = String::new();
+    for (i, p) in parts.iter().enumerate() {
+        if i > 0 {
+            out.push('`');
+        }
+        if i % 2 == 1 && i + 1 < parts.len() {
+            out.push_str(&canon_type(p));
+        } else {
+            out.push_str(p);
+        }
+    }
+    out
+}
+
 fn render(db: &DbIndex, t: &LuaType) -> String {
     canon_type(&humanize_type(db, t, RenderLevel::Detailed))
 }
@@ -205,7 +226,7 @@ pub fn observe(analysis: &EmmyLuaAnalysis, root: &Path, opts: &ObserveOpts) -> O
                             d.range.end.line,
                             d.range.end.character,
                             d.severity.map(|s| format!("{s:?}")),
-                            d.message.replace('\n', " ")
+                            canon_backticks(&d.message.replace('\n', " "))
                         )
                     })
                     .collect();
